@@ -377,6 +377,12 @@ def oracle(case, r):
     left = [x for x in r["residue"] if x not in ["%s%d" % (k, g) for k, g in ghosts]] if ghosts else r["residue"]
     if ghosts and left == [G.LOCKDIR] and len(left) < len(r["residue"]):
         left = []       # the lock of a killed process was never released: it, and its directory, are not residue of a release
+    dead = r.get("sigkilled") or []
+    if dead:
+        # a locker that was killed outright released nothing: its own lock file, and the directory, are not residue of a release
+        left = [x for x in left if x not in ["%s%d" % (case["procs"][i]["kind"], i) for i in dead]]
+        if left == [G.LOCKDIR]:
+            left = []
     if all(o in ("done", "killed") or o.startswith("failed") for o in r["outcomes"]) and left:
         yield ("no_residue", residue_class(case, r), "every process has finished and %r is left" % (r["residue"],))
     if ghosts:
@@ -543,6 +549,11 @@ def random_case(rng, n):
     if rng.random() < 0.15:
         c["base"] = "abs"
     add_signals(rng, c, 0.15)
+    if rng.random() < 0.12:
+        # SIGKILL for one of them at an arbitrary point (mid-takeLocks, in the body, mid-giveLocks): it stops dead
+        sched = list(c["sched"])
+        sched.insert(rng.randint(1, max(1, len(sched) * 2 // 3)), G.EV_KILL + rng.randrange(n))
+        c["sched"] = sched
     return c
 
 
@@ -767,6 +778,9 @@ def evaluate(ctx, cases):
                     ctx.hist("admin=" + t[1])
         if c.get("signal"):
             inp["signal"] = c["signal"]
+        for t in r["trace"]:
+            if t[1] == "sigkill":
+                ctx.hist("sigkill=" + t[2])
         if is_path_case(c):
             inp["ndirs"] = c.get("ndirs", 1)
         if c.get("phases"):
@@ -976,6 +990,8 @@ def run(ctx):
         raise common.InfraError("no case of this run had a stack the locker cannot write to")
     if not ctx.histogram.get("admin=clearLocks") or not ctx.histogram.get("admin=listLocks"):
         raise common.InfraError("no case of this run had a stale lock cleared by `eups admin clearLocks`")
+    if not ctx.histogram.get("sigkill=killed"):
+        raise common.InfraError("no locker was killed outright in this run")
     if not ctx.histogram.get("signal_delivered_in_body"):
         raise common.InfraError("no signal was delivered to a command body in this run")
     for ev in ("request_withdrawn", "retry_after_withdrawal", "create_found_directory_removed", "retry_after_directory_removed",
